@@ -139,6 +139,7 @@ func c14Extra(tier string, rng *rand.Rand, res *Result) {
 	c14Collision(tier, res)
 	c14CtxRouting(tier, rng, res)
 	c14MgrHistories(tier, rng, res)
+	c13RaceStress(tier, rng, res, "hash", "hash-routing") // lookups concurrent with Add / Remove / Refresh, under the race detector
 }
 
 // c14Collision searches generated host names for two hosts with a common virtual node (a real md5 collision on
